@@ -152,3 +152,84 @@ def no_one_shot_state(ctx, rule, module_names=None):
                               f'the same object finds it empty')
     ctx.count(f'{rule}.attribute_stores_checked', n)
 
+
+
+# --------------------------------------------------------------------------- token constructors keep the text they are given
+def check_token_ctors_verbatim(ctx, rule, only=None, exempt=('MetacommentToken',)):
+    """Every token class hands the `encoding` it receives to its base class unchanged, and AbstractToken stores it unchanged:
+    the text a token exports verbatim is the text of the cell, not a corrected / stripped / normalised version of it."""
+    mod = ctx.prog.module(N.TOKENS)
+    base = ctx.prog.cls(f'{N.TOKENS}.AbstractToken')
+    n = 0
+    for ci in [c for c in ctx.prog.classes.values() if c.module is mod]:
+        if base not in ctx.prog.mro(ci) or ci.name in exempt or (only is not None and ci.name not in only):
+            continue
+        init = ci.methods.get('__init__')
+        if init is None or 'encoding' not in init.all_params:
+            continue
+        at = init.loc
+        rebinds = [a for a in walk_local(init.node) if isinstance(a, (ast.Assign, ast.AugAssign, ast.AnnAssign))
+                   and any(isinstance(t, ast.Name) and t.id == 'encoding' for t in (a.targets if isinstance(a, ast.Assign) else [a.target]))]
+        for a in rebinds:
+            ctx.violation(rule, f'{init.module.relpath}:{a.lineno}', init.qualname, f'token-text-rewritten:{ci.name}',
+                          f'{ci.name}.__init__ re-binds its text (`{src(a)[:70]}`): the token no longer carries the cell as written')
+        if ci is base:
+            stores = [a for a in walk_local(init.node) if isinstance(a, ast.Assign) and any(src(t) == 'self.encoding' for t in a.targets)]
+            if len(stores) != 1:
+                raise AnalysisError(f'{at}: AbstractToken.__init__ stores self.encoding {len(stores)} times: not followed')
+            got = stores[0].value
+        else:
+            sup = [c for c in walk_local(init.node) if isinstance(c, ast.Call) and isinstance(c.func, ast.Attribute) and c.func.attr == '__init__'
+                   and isinstance(c.func.value, ast.Call) and F.is_name(c.func.value.func, 'super')]
+            if len(sup) != 1:
+                raise AnalysisError(f'{at}: {ci.name}.__init__ calls super().__init__ {len(sup)} times: not followed')
+            kw = {k.arg: k.value for k in sup[0].keywords if k.arg}
+            got = kw.get('encoding', sup[0].args[0] if sup[0].args else None)
+            if got is None:
+                raise AnalysisError(f'{at}: {ci.name}.__init__ passes no text to its base class: not followed')
+        n += 1
+        plain = F.is_name(got, 'encoding')
+        derived = any(isinstance(x, ast.Name) and x.id == 'encoding' for x in ast.walk(got))
+        if not plain and not derived:
+            raise AnalysisError(f'{at}: the text {ci.name} stores (`{src(got)[:60]}`) is not followed')
+        ctx.check(plain, rule, at, init.qualname, f'token-text-rewritten:{ci.name}',
+                  f'{ci.name} keeps the text it is given unchanged',
+                  f'{ci.name}.__init__ stores `{src(got)[:80]}` instead of the text it is given: the cell is corrected / stripped / '
+                  f're-spelled at construction, so what is exported is not what was written')
+    if only is None:
+        ctx.expect_count(rule, 'token classes that store their text', n, 20)
+    elif n < len(only):
+        raise AnalysisError(f'{N.TOKENS}: token classes {sorted(only)} not all found ({n})')
+
+
+def check_cells_unmodified(ctx, rule):
+    """In Importer.run the cells of a record are the elements of the row the line reader produced: the row variable is not re-bound
+    to a cleaned-up copy and the cell variable of the column loop is not re-bound either (stripping `row[0]` for a global comment,
+    which is outside the verbatim clause, is the one thing the repository does today - on the argument, not on the row)."""
+    run_ = ctx.prog.func(f'{N.IMPORTER}.Importer.run')
+    row_loops = [n for n in walk_local(run_.node) if isinstance(n, ast.For) and isinstance(n.target, ast.Name) and isinstance(n.iter, ast.Name)
+                 and n.iter.id in run_.all_params]
+    if len(row_loops) != 1:
+        raise AnalysisError(f'{run_.loc}: the loop over the records of the reader is not recognised ({len(row_loops)} candidates)')
+    row = row_loops[0].target.id
+    col_loops = [n for n in ast.walk(row_loops[0]) if isinstance(n, ast.For) and src(n.iter) in (f'enumerate({row})', row)]
+    if len(col_loops) != 1:
+        raise AnalysisError(f'{run_.loc}: the loop over the cells of a record is not recognised ({len(col_loops)} candidates)')
+    tgt = col_loops[0].target
+    cell = tgt.elts[1].id if isinstance(tgt, ast.Tuple) and len(tgt.elts) == 2 and isinstance(tgt.elts[1], ast.Name) else (tgt.id if isinstance(tgt, ast.Name) else None)
+    if cell is None:
+        raise AnalysisError(f'{run_.loc}: the cell variable of the column loop is not recognised')
+    bad = []
+    for n in ast.walk(row_loops[0]):
+        if isinstance(n, (ast.Assign, ast.AugAssign, ast.AnnAssign)):
+            for t in (n.targets if isinstance(n, ast.Assign) else [n.target]):
+                if isinstance(t, ast.Name) and t.id in (row, cell):
+                    bad.append(n)
+                if isinstance(t, ast.Subscript) and isinstance(t.value, ast.Name) and t.value.id == row:
+                    bad.append(n)
+    for n in bad:
+        ctx.violation(rule, f'{run_.module.relpath}:{n.lineno}', run_.qualname, 'cells-rewritten-before-import',
+                      f'`{src(n)[:80]}` replaces the cells the line reader produced: every token is built from the rewritten text, not '
+                      f'from the cell as written')
+    if not bad:
+        ctx.holds(rule, run_.loc, run_.qualname, f'the cells of a record reach the tokens as the line reader produced them (`{row}`, `{cell}` never re-bound)')
